@@ -121,16 +121,24 @@ Section Inv.
     kb; [apply keeps_askA|]. intros m _. destruct (coin (o_amount x) <? m); [apply keeps_lift; discriminate|apply keeps_ret; exact I].
   Qed.
 
+  (* add_output / fee_for_output first refuse a value with empty entries (Builder/Change.v output_acceptable, since the
+     /repo fix "the builder drops zero quantities and asset-less policies of the amounts it is given") *)
+  Lemma k_output_acceptable x : keeps (output_acceptable orc x) (fun _ => True).
+  Proof.
+    unfold output_acceptable. destruct (Num.ValueNorm.value_has_empty_entries (o_amount x));
+      [apply keeps_lift; discriminate | apply k_output_admissible].
+  Qed.
+
   Lemma k_add_output x : value_pos (o_amount x) = true -> keeps (add_output orc x) (fun _ => True).
   Proof.
-    intros Hx. unfold add_output. kb; [apply k_output_admissible|]. intros _ _.
+    intros Hx. unfold add_output. kb; [apply k_output_acceptable|]. intros _ _.
     apply keeps_modify. intros s Hs. apply inv_add; assumption.
   Qed.
 
   Lemma k_fee_for_output x : keeps (fee_for_output orc x) (fun _ => True).
   Proof.
     unfold fee_for_output. kb; [apply keeps_get|]. intros s _. kb; [apply keeps_askF|]. intros f1 _.
-    kb; [apply k_output_admissible|]. intros _ _. kb; [apply keeps_askF|]. intros f2 _. apply keeps_lift. intros; exact I.
+    kb; [apply k_output_acceptable|]. intros _ _. kb; [apply keeps_askF|]. intros f2 _. apply keeps_lift. intros; exact I.
   Qed.
 
   Lemma k_unwrap_ma (m : option multiasset) (P : multiasset -> Prop) :
